@@ -1,3 +1,5 @@
 (* modes.ml - further driver modes (heap, xml, acc) *)
 let dispatch (mode : string) (_rest : string list) : unit =
-  prerr_endline ("unknown mode " ^ mode); exit 2
+  match mode with
+  | "heap" -> Heap_drv.run ()
+  | _ -> prerr_endline ("unknown mode " ^ mode); exit 2
